@@ -496,6 +496,8 @@ def gen_sentence(prods, rng, start, maxdepth=8, maxlen=14):
             out.append(s)
             return len(out) <= maxlen
         alts = prods[s]
+        if not alts:
+            return False          # a symbol without productions derives nothing
         if d > maxdepth:
             alts = sorted(alts, key=len)[:1]
         if d > maxdepth + 6:
